@@ -116,7 +116,7 @@ class PotableResult(object):
 PREFILL = ('STALE CONTENT OF AN EARLIER TABULATION 0123456789 ' * 2 + '\n') * 3000      # ~300 kB
 
 
-def potable(ini_text, args=(), want_output=True, binary=False, name='model.aspot', prefill=False):
+def potable(ini_text, args=(), want_output=True, binary=False, name='model.aspot', prefill=False, options_first=False):
     """Run potable main() in-process.  Returns PotableResult; a non-SystemExit exception is kept in .exc"""
     from atsim.potentials.tools import potable as P
     d = tempfile.mkdtemp(prefix='p', dir=scratch())
@@ -137,7 +137,7 @@ def potable(ini_text, args=(), want_output=True, binary=False, name='model.aspot
             f.write(content)
     argv = ['potable'] + list(args) + [cfg] + ([out] if want_output else [])
     # nargs='*' options swallow positionals: put positionals first when such options are used
-    if any(a.startswith('-') for a in args):
+    if any(a.startswith('-') for a in args) and not options_first:
         argv = ['potable', cfg] + ([out] if want_output else []) + list(args)
     so, se = io.StringIO(), io.StringIO()
     old_argv = sys.argv
